@@ -16,6 +16,10 @@ CHECKS = {
          "Every (left,top,width,height) from an alphabet that includes 2^31±1 and the values next to u32::MAX is given to all six cropped-view constructors on every image size up to 6x6; every crop box over a valid+invalid f64 alphabet (NaN, ±inf, negative, -0, denormal) goes through Resizer::resize in isolated child processes; nine buffer constructors x 13 pixel types x overflow sizes x lengths x alignments. Accept/reject is compared with exact u64/u128/TwoSum arithmetic and accepted views are read back against the rectangle model; both the optimised and the debug-assertion build are judged.",
          "Zero-area boxes and f64 boxes that exceed the image by less than the rounding of left+width are don't-care; image sizes are bounded by 7.",
          "DESIGN.md §4 C04"),
+ "C05": ("bounded-exhaustive enumeration of operations x sizes incl. zero x destination container kinds x placements x sentinels on the real code; sentinel / differential oracle",
+         "Every (sw,sh,dw,dh) in (0..S)^4 x 10 algorithms (SuperSampling multiplicities 1,2,3,255) x 4 crop variants x 13 pixel types is resized into every destination kind (owned, Vec/slice with 1, w, 3w+2 spare pixels, mutable cropped views at 8 placements, typed slice/buffer/cropped/nested views) under two sentinels; alpha, mapping and conversion operations likewise. Outside bytes must keep the sentinel, the rectangle must equal the exact-buffer result under both sentinels (nothing stale), the source must be unchanged, errors and zero sizes must leave the destination untouched. Both build profiles.",
+         "S = 4 quick / 6 thorough; typed destination kinds are instantiated for 6 of the 13 pixel types (compile-time bound); thread counts belong to C08.",
+         "DESIGN.md §4 C05"),
  "C06": ("exhaustive enumeration of (colour, alpha) pairs x lane layouts x back-ends x entry points on the real kernels, exact-integer oracle",
          "All 65536 8-bit pairs in 132 row layouts, 16-bit alpha rows x all 65536 colours (all 2^32 pairs in the thorough tier), boundary pairs at every width/offset, and a float alphabet are executed on every back-end and entry point and compared with exact integer / IEEE arithmetic; the per-pixel function has a finite domain, so enumeration decides it.",
          "Quick tier covers 16-bit pairs with alpha or colour in a 432-value boundary set; floats only on the listed alphabet.",
